@@ -76,6 +76,7 @@ func capacity(c *Case) int {
 }
 
 func runCase(t *testing.T, c *Case) (o outcome) {
+	compkit.Journal(c)
 	o.probes = map[string]int{}
 	defer func() {
 		if e := recover(); e != nil && o.class == "" {
@@ -333,6 +334,26 @@ func genCase(r compkit.Rand) *Case {
 	}
 	n := 5 + r.Intn(40)
 	var offers []int
+	if c.MaxMachines == 0 && r.Chance(0.3) {
+		// Several machines on probation at once, then one of them dies (not
+		// necessarily the one that failed first), then the probation timeout passes.
+		k := 2 + r.Intn(2)
+		if c.Parallelism < k*capacity(c) {
+			c.Parallelism = k * capacity(c)
+		}
+		for i := 0; i < k; i++ {
+			c.Events = append(c.Events, Event{Kind: "offer", Priority: 1, Procs: capacity(c)})
+			offers = append(offers, len(c.Events)-1)
+		}
+		for i := 0; i < k; i++ {
+			c.Events = append(c.Events, Event{Kind: "done", Req: offers[i], Outcome: "transport"})
+			if r.Chance(0.5) {
+				c.Events = append(c.Events, Event{Kind: "advance", Dur: int64(time.Duration(r.Pick(1, 5, 10)) * time.Second)})
+			}
+		}
+		c.Events = append(c.Events, Event{Kind: "kill", Machine: r.Intn(k)})
+		c.Events = append(c.Events, Event{Kind: "advance", Dur: int64(time.Duration(r.Pick(20, 31, 60)) * time.Second)})
+	}
 	for i := 0; i < n; i++ {
 		switch x := r.Intn(20); {
 		case x < 8 || len(offers) == 0:
